@@ -462,6 +462,19 @@ type c19Info struct {
 	fields       int
 }
 
+// c19Stale fills dir with stale, longer files of the names fitgen is about to write (what the
+// directory of a package looks like when its profile is regenerated in place).
+func c19Stale(dir string, files []string) {
+	var sb bytes.Buffer
+	sb.WriteString("package fit\n\n")
+	for i := 0; sb.Len() < 700000; i++ {
+		fmt.Fprintf(&sb, "// stale line %d of an earlier generation\nvar stale%d = [...]int{%d, %d}\n", i, i, i, i+1)
+	}
+	for _, f := range files {
+		os.WriteFile(filepath.Join(dir, f), sb.Bytes(), 0o644)
+	}
+}
+
 func c19Run(repo, fitgen, dir string, cfg c19Config) (string, c19Info) {
 	var info c19Info
 	src := filepath.Join(repo, "cmd/fitgen/internal/profile/testdata", cfg.version+".xlsx")
@@ -609,8 +622,10 @@ func c19Run(repo, fitgen, dir string, cfg c19Config) (string, c19Info) {
 		// light treatment: one run of the command, then a type check of the generated package with its support code
 		out := filepath.Join(dir, "out")
 		os.MkdirAll(out, 0o755)
+		c19Stale(out, files) // regenerating in place: the directory holds an earlier, longer generation
 		cmd := exec.Command(fitgen, "-sdk", cfg.version, xlsxPath, out)
 		cmd.Dir = dir
+		cmd.Env = append(os.Environ(), "GOMAXPROCS=3")
 		if b, err := cmd.CombinedOutput(); err != nil {
 			return fmt.Sprintf("fitgen failed on the single-message product file_id + %s: %v: %s", cfg.keep, err, tail(b, 500)), info
 		}
@@ -634,6 +649,14 @@ func c19Run(repo, fitgen, dir string, cfg c19Config) (string, c19Info) {
 			cmd = exec.Command(fitgen, zipPath, out)
 		}
 		cmd.Dir = dir
+		// the four runs differ in what must not matter: run 1 regenerates in place (the output
+		// directory already holds longer files of the same names), and the runs see 3, 1 and 7 Ps
+		if run == 1 {
+			c19Stale(out, files)
+		}
+		if p := []string{"", "3", "1", "7"}[run]; p != "" {
+			cmd.Env = append(os.Environ(), "GOMAXPROCS="+p)
+		}
 		b, err := cmd.CombinedOutput()
 		if err != nil {
 			return fmt.Sprintf("fitgen run %d (%s input) failed: %v: %s", run, map[bool]string{true: "xlsx", false: "zip"}[run < 2], err, tail(b, 500)), info
